@@ -1015,6 +1015,12 @@ class Ctx:
     def note(self, s):
         self.notes.append(s)
 
+    def external_queries(self, n, nontrivial=0, secs=0.0):
+        """solver queries a harness posed itself (string theory, C19): counted in the evidence"""
+        self.stats.queries += n
+        self.stats.solver_s += secs
+        self.extra_nontrivial = getattr(self, "extra_nontrivial", 0) + nontrivial
+
     @contextlib.contextmanager
     def guard(self, label):
         """an exception escaping the guarded real-code call is an obligation failure"""
@@ -1117,6 +1123,9 @@ class ConcreteCtx:
 
     def note(self, s):
         self.notes.append(s)
+
+    def external_queries(self, n, nontrivial=0, secs=0.0):
+        pass
 
     @contextlib.contextmanager
     def guard(self, label):
